@@ -725,6 +725,73 @@ def stage_slice_replay(ctx: Ctx):
     ctx.correspondence('models/SliceReplay.v recurse_slice (operations without the recursion steps) == the put_slice calls real reconcile() makes on the edited list', len(terms), [meta[i] for i in failed])
 
 
+def _N(i):
+    return ast.Name(id=i, ctx=ast.Load())
+
+
+COMPOUND_EDITS = [
+    ('from a import b\nx = 1  # c\n', 'module=None, level=1', lambda t: (setattr(t.body[0], 'module', None), setattr(t.body[0], 'level', 1))),
+    ('from . import b\n', 'module=m, level=0', lambda t: (setattr(t.body[0], 'module', 'm'), setattr(t.body[0], 'level', 0))),
+    ('from .a import b\n', 'module=None', lambda t: setattr(t.body[0], 'module', None)),
+    ('f(x=1, *b)\n# c\n', 'starred -> name', lambda t: t.body[0].value.args.__setitem__(0, _N('c'))),
+    ('class C(x=1, *b): pass\n', 'starred base -> name', lambda t: t.body[0].bases.__setitem__(0, _N('c'))),
+    ('f(x=y, *b)\n', 'keyword.arg=None', lambda t: setattr(t.body[0].value.keywords[0], 'arg', None)),
+    ('f(**y)\n', 'keyword.arg=k', lambda t: setattr(t.body[0].value.keywords[0], 'arg', 'k')),
+    ('f(a, *b, k=1)\n', 'starred -> name, keyword -> **', lambda t: (t.body[0].value.args.__setitem__(1, _N('c')), setattr(t.body[0].value.keywords[0], 'arg', None))),
+    ('def f(a, b=1): pass\n', 'defaults cleared', lambda t: t.body[0].args.defaults.clear()),
+    ('def f(a, b=1, *, c, d=2): pass\n', 'kw default removed, one added', lambda t: (t.body[0].args.kw_defaults.__setitem__(1, None), t.body[0].args.kw_defaults.__setitem__(0, ast.Constant(value=3)))),
+    ('with a as b: pass\n', 'optional_vars=None', lambda t: setattr(t.body[0].items[0], 'optional_vars', None)),
+    ('try: pass\nexcept E as e: pass\n', 'name and type removed', lambda t: (setattr(t.body[0].handlers[0], 'name', None), setattr(t.body[0].handlers[0], 'type', None))),
+    ('try: pass\nexcept: pass\n', 'type and name added', lambda t: (setattr(t.body[0].handlers[0], 'type', _N('E')), setattr(t.body[0].handlers[0], 'name', 'e'))),
+    ('raise E from c\n', 'exc and cause removed', lambda t: (setattr(t.body[0], 'exc', None), setattr(t.body[0], 'cause', None))),
+    ('raise\n', 'exc and cause added', lambda t: (setattr(t.body[0], 'exc', _N('E')), setattr(t.body[0], 'cause', _N('c')))),
+    ('x: int = 1\n', 'value removed', lambda t: setattr(t.body[0], 'value', None)),
+    ('x = lambda a, b=1: a\n', 'lambda arguments emptied', lambda t: (t.body[0].value.args.args.clear(), t.body[0].value.args.defaults.clear(), setattr(t.body[0].value, 'body', _N('z')))),
+    ('for i in j: pass\nelse: pass\n', 'orelse emptied', lambda t: t.body[0].orelse.clear()),
+    ('x = a < b < c\n', 'last comparison removed', lambda t: (t.body[0].value.ops.pop(), t.body[0].value.comparators.pop())),
+    ('x = {a: 1, **b}\n', '** entry gets a key', lambda t: t.body[0].value.keys.__setitem__(1, _N('k'))),
+    ('x = {a: 1, b: 2}\n', 'key becomes **', lambda t: t.body[0].value.keys.__setitem__(1, None)),
+    ('x = f"{a!r:>5}"\n', 'conversion and format_spec removed', lambda t: (setattr(t.body[0].value.values[0], 'conversion', -1), setattr(t.body[0].value.values[0], 'format_spec', None))),
+    ('x = y[a:b:c]\n', 'step and upper removed', lambda t: (setattr(t.body[0].value.slice, 'step', None), setattr(t.body[0].value.slice, 'upper', None))),
+    ('match v:\n    case C(a, k=b): pass\n', 'keyword pattern removed', lambda t: (t.body[0].cases[0].pattern.kwd_attrs.pop(), t.body[0].cases[0].pattern.kwd_patterns.pop())),
+    ('match v:\n    case {1: a, **r}: pass\n', 'rest removed, key added', lambda t: (setattr(t.body[0].cases[0].pattern, 'rest', None), t.body[0].cases[0].pattern.keys.append(ast.Constant(value=2)), t.body[0].cases[0].pattern.patterns.append(ast.MatchAs(pattern=None, name='b')))),
+    ('def f() -> r: pass\n', 'returns removed, decorator added', lambda t: (setattr(t.body[0], 'returns', None), t.body[0].decorator_list.append(_N('d')))),
+    ('class C(B, m=M): pass\n', 'bases and keywords removed', lambda t: (t.body[0].bases.clear(), t.body[0].keywords.clear())),
+    ('import a.b as c, d\n', 'asname removed, name changed', lambda t: (setattr(t.body[0].names[0], 'asname', None), setattr(t.body[0].names[1], 'name', 'e.f'))),
+    ('x = [i for i in j if k]\n', 'filter removed, async', lambda t: t.body[0].value.generators[0].ifs.clear()),
+    ('assert a, m\n', 'msg removed', lambda t: setattr(t.body[0], 'msg', None)),
+    ('def g():\n    x = yield v\n    return w\n', 'yield and return values removed', lambda t: (setattr(t.body[0].body[0].value, 'value', None), setattr(t.body[0].body[1], 'value', None))),
+]
+
+
+def stage_compound_edits(ctx: Ctx):
+    """deterministic: edits that change SEVERAL fields of one original node (or remove optional children) so that the field-by-field intermediate states are not all
+    valid source: reconcile() must still return the edited AST (it falls back to putting the enclosing node), with the neighbouring text kept"""
+    import fst
+    for src, what, edit in COMPOUND_EDITS:
+        root = fst.FST(src, 'exec')
+        root.mark()
+        try:
+            edit(root.a)
+            edited = strip_f(root.a)
+            ast.parse(ast.unparse(ast.fix_missing_locations(strip_f(root.a))))
+        except Exception as e:
+            ctx.broken.append({'kind': 'harness', 'name': 'compound_edits', 'detail': f'{src!r} {what}: {e!r}'[:200]})
+            continue
+        rec = {'marked': src, 'edit': what}
+        ctx.tick(('compound', src, what), 'reconcile:compound-edit')
+        try:
+            out = root.reconcile()
+        except Exception as e:
+            ctx.violation(f'reconcile-raise|{type(e).__name__}|compound-edit', 'reconcile() raised on a valid edited AST', {**rec, 'error': repr(e)[:200]})
+            continue
+        d = cmp_ast(out.a, edited, positions=False) or reparse_diffs(out)
+        if d:
+            ctx.violation('reconcile-struct|compound-edit', 'the reconciled tree is not the edited AST (or its source does not parse to it)', {**rec, 'out_src': out.src, 'diffs': d})
+        elif '# c' in src and '# c' not in out.src:
+            ctx.violation('reconcile-comment|compound-edit', 'a comment of an untouched neighbouring line was lost', {**rec, 'out_src': out.src})
+
+
 def stage_dict_and_try(ctx: Ctx):
     """deterministic: (a) Dict keys / values re-paired (values permuted under fixed keys, keys permuted, pairs swapped / deleted / duplicated) with keys that differ by more
     than a primitive and with `**` entries; (b) the number of except handlers / finally statements of a try changed (append / insert / delete / duplicate) while the other
@@ -978,6 +1045,7 @@ def run(ctx: Ctx):
     run_guarded(ctx, stage_foreign_runs)
     run_guarded(ctx, stage_foreign_specials)
     run_guarded(ctx, stage_slice_replay)
+    run_guarded(ctx, stage_compound_edits)
     run_guarded(ctx, stage_dict_and_try)
     run_guarded(ctx, stage_corr, progs)
 
